@@ -235,7 +235,11 @@ def attach_textcmp():
                     ignore_patterns=ignore_patterns, remove_lines=remove_lines,
                     preprocess_fn=preprocess, max_permutation_cases=max_permutation_cases)
         try:
-            v, info = textcmp.verdict(a0, e0, opts)
+            if any(isinstance(x, str) and x.endswith('\n') for x in a0):
+                # lines handed over with their terminators (readlines() style): judged by the caller on the texts themselves
+                v, info = 'unspecified', {'why': 'lines given with their terminators'}
+            else:
+                v, info = textcmp.verdict(a0, e0, opts)
         except Exception as ex:           # oracle trouble is never a verdict
             v, info = 'unspecified', {'why': 'oracle error %r' % ex}
         got = 'pass' if result.failures == 0 else 'fail'
